@@ -171,9 +171,15 @@ class PGArrayConverter(dbapiprovider.ArrayConverter):
 
 class PGPool(Pool):
     def _connect(pool):
-        pool.con = pool.dbapi_module.connect(*pool.args, **pool.kwargs)
+        con = pool.dbapi_module.connect(*pool.args, **pool.kwargs)
         if 'client_encoding' not in pool.kwargs:
-            pool.con.set_client_encoding('UTF8')
+            try: con.set_client_encoding('UTF8')
+            except:
+                # do not leave a half-configured connection in the pool (it has no owner pid yet)
+                try: con.close()
+                except: pass
+                raise
+        pool.con = con
     def release(pool, con):
         assert con is pool.con
         try:
